@@ -27,8 +27,10 @@ TRUSTED_BASE = [
     "lazy Species.graph, canonical_atoms(_at_origin): their source text is compared with the text the model was written from (translator) and their behaviour by the correspondence",
     "oracles (not verified): RDKit (MolFromSmiles, AddHs, formal charge, radical electrons, bond types, stereo perception, ETKDG embedding), "
     "autodE's SMILES Parser (property C01), Builder.build / get_simanl_atoms (3D coordinates), minimum_cycle_basis (max_ring_n)",
-    "reference for 'what the SMILES denotes' in the implementation oracles: RDKit called by the harness (sanitized mol with removeHs=False for atoms/H counts/charges/classes/perceived stereo; "
-    "unsanitized mol for bond orders, chiral tags and bond directions as written)",
+    "reference for 'what the SMILES denotes' in the implementation oracles: RDKit called by the harness (sanitized mol with removeHs=False for atoms/H counts/charges; "
+    "unsanitized mol for bond orders, chiral tags and bond directions as written, and for everything when RDKit rejects the string; which specified marks ARE stereochemistry: "
+    "Chem.FindPotentialStereo, i.e. NOT the legacy FindMolChiralCenters/GetStereo calls the implementation makes); atom classes and the footprint of the known parser scan "
+    "deviation from the harness's own tokenizer",
     "the harness: SMILES generator, canonicalisation of the observed graph, literal printer",
 ]
 ASSUMPTIONS = [
@@ -36,6 +38,9 @@ ASSUMPTIONS = [
     "coordinates: finite and pairwise distinct (> 1e-6 A) is observed on every built molecule, not proved (3D embedding is an oracle: partial claim)",
     "multiplicity 'as the SMILES denotes' = lowest multiplicity compatible with the electron count (autodE's documented convention: several unpaired electrons default to a singlet)",
     "a bond is 'aromatic in the SMILES' when it joins two lower-case atoms and RDKit perceives it aromatic; 'multiple' is the bond symbol as written",
+    "path selection is compared with the predicate AS WRITTEN in Molecule._init_smiles (a metal symbol anywhere inside a bracket, so [Kr] selects init_smiles; text pinned by the translator), evaluated on the harness's own metal table",
+    "the RDKit-path correspondence terms of a string with an atom class >= 100 are skipped (reported instead as init_organic_smiles|atom-class-ge-100-drops-atom): the model takes RDKit's atom list, not the mol block",
+    "the model has no crash for Builder.set_atoms_bonds on > 8 neighbours: the forced init_organic_smiles run of such strings is skipped; r_unreasonable (RDKit embedding unreasonable) is read off the observed flag",
     "forced RDKit path on metal-containing strings: only atoms/bonds/pi/stereo/classes are compared (charge and multiplicity through RDKit's radical count are not meaningful for metals and Molecule never takes that path)",
 ]
 RULE = ("one case = one generated SMILES x one build path (init_smiles forced, init_organic_smiles forced, Molecule constructor; plus explicit charge/mult variants). "
@@ -400,6 +405,9 @@ def reference(smiles):
             "n_rad": sum(a.GetNumRadicalElectrons() for a in ref.GetAtoms())}
 
 
+TR_INFO = {"chiral_legacy": True}     # filled from the translator's report before the workers are forked
+
+
 def rdkit_oracle(smiles):
     """the facts init_organic_smiles reads from RDKit (same calls, made by the harness)"""
     from rdkit import Chem
@@ -412,7 +420,8 @@ def rdkit_oracle(smiles):
             "atoms": [a.GetAtomicNum() for a in m.GetAtoms()],
             "bonds": [(b.GetBeginAtomIdx(), b.GetEndAtomIdx(), b.GetBondType() != Chem.rdchem.BondType.SINGLE,
                        b.GetStereo() != Chem.rdchem.BondStereo.STEREONONE) for b in m.GetBonds()],
-            "chiral": [i for i, _ in Chem.FindMolChiralCenters(m)]}
+            "chiral": [i for i, _ in (Chem.FindMolChiralCenters(m) if TR_INFO["chiral_legacy"]
+                                      else Chem.FindMolChiralCenters(m, useLegacyImplementation=False))]}
 
 
 def parsed(smiles, sym2z):
@@ -451,13 +460,13 @@ class Probe:
         o_is, o_ios, _, _, o_build = self._orig
         probe = self
 
-        def w_is(molecule, smiles):
+        def w_is(*a, **k):
             probe.trace.append("builtin")
-            return o_is(molecule, smiles)
+            return o_is(*a, **k)
 
-        def w_ios(molecule, smiles):
+        def w_ios(*a, **k):
             probe.trace.append("organic")
-            return o_ios(molecule, smiles)
+            return o_ios(*a, **k)
 
         def w_build(bself, atoms, bonds):
             try:
@@ -782,7 +791,7 @@ def account(ctx, data, terms, descr, found):
                 continue
             ctx.finding(key, f"{what}  [SMILES {smiles!r}, {path} path]",
                         {"smiles": smiles, "path": path, "key": key, "observed": r["obs"], "error": r["error"],
-                         "reference": {k: (sorted(v) if isinstance(v, set) else v) for k, v in ref.items()}})
+                         "reference": {k: (sorted(v) if isinstance(v, set) else v) for k, v in ref.items() if k != "ring_bond"}})
     # the two forced paths must agree on the graph annotation (implied by the per-path checks; kept as a direct check)
     a, b = runs.get("builtin"), runs.get("organic")
     if a and b and a["outcome"] == b["outcome"] == "built":
@@ -873,6 +882,12 @@ def run(ctx):
     rc, out = sh(["python3", f"{VERIF}/tr/translate_c02.py"], timeout=120)
     ctx.log("translator:", out.strip()[:400])
     translated = rc == 0
+    if translated:
+        try:
+            import json as _json
+            TR_INFO["chiral_legacy"] = bool(_json.loads(out.strip().split("translated:", 1)[1]).get("chiral_legacy", True))
+        except Exception:  # noqa
+            pass
     ctx.cov["translator"] = {"ok": translated, "output": out.strip()[:1500]}
     # 2. proofs over the regenerated operation lists
     info = {"hygiene": [], "log_tail": out, "build_ok": False}
@@ -972,17 +987,20 @@ def replay(ctx, obj):
 
 MANIFEST = {
     "technique": "Coq proof over operation sequences regenerated from source (ast translator) + model/implementation correspondence and RDKit-referenced property oracles on generated SMILES",
-    "level_text": ("Machine-checked theorems (coq/C02/Props.v, closed under the global context) over the operation sequences translated from init_organic_smiles and "
-                   "init_smiles on every run, for EVERY parsed SMILES molecule: both paths end with exactly the SMILES bonds plus one bond per explicit hydrogen; "
-                   "the final pi set is exactly {multiple or aromatic bonds} and the final stereo set exactly the marked atoms on each path (the proofs use that the marks "
-                   "follow the graph rebuild and the translated pi rule: rebuild_forgets_marks); atom classes are carried onto the nodes; atoms are the SMILES atoms in "
-                   "order followed by the hydrogens with the H-count arithmetic; charge and multiplicity as denoted (translated calc_multiplicity); the two paths agree whenever "
-                   "the RDKit oracle agrees with the SMILES; path selection and explicit charge/multiplicity handling as a decision table.  One statement is refuted with a "
-                   "witness (single bond between two aromatic rings marked pi) and two are stated as fixed-or-refuted disjunctions over the regenerated code (classes lost when the "
-                   "builder fails; odd poly-radical read as a singlet); all three are reported on the implementation with replays.  PARTIAL: 3D embedding is an oracle - finite, "
-                   "pairwise distinct coordinates are observed on every generated molecule, not proved; the SMILES parser is an input (property C01)."),
-    "level_note": ("Trusted: Coq kernel; tr/translate_c02.py; the hand model of make_graph / networkx attribute semantics / hydrogen expansion / atoms setter (source text compared "
-                   "each run, behaviour validated by the correspondence on every generated molecule and path); RDKit, autodE's parser, Builder.build and get_simanl_atoms are oracles; "
-                   "the parsed SMILES is an input of the model, so parser-level deviations (stereo marks on extra atoms) are caught only by the RDKit-referenced implementation oracles. "
-                   "Coordinates finite/distinct: observed only."),
+    "level_text": ("Machine-checked theorems (coq/C02/Props.v, 16, closed under the global context) over the operation sequences translated from init_organic_smiles and "
+                   "init_smiles on every run, for EVERY parsed SMILES molecule.  Built-in path (premise: parser well-formedness only): no statement raises; edges = parsed bonds plus one "
+                   "bond per explicit hydrogen; stereo set = the parser's marked atoms; classes on the nodes (also after a failed build); atoms = SMILES atoms then hydrogens with the H-count "
+                   "arithmetic; pi set = {order > 1 or aromatic} for molecules without an aromatic linker (refuted with a witness otherwise); charge/multiplicity.  NOTE these are "
+                   "statement-order / wiring theorems: the specification side IS the parser output.  RDKit path: rdkit_path_copies_oracle proves, assuming only in-range indices, that the "
+                   "store is a copy of the RDKit oracle (atoms, bonds, non-single bonds -> pi, chiral centres and stereo-bond ends -> stereo, charge, translated calc_multiplicity); the RDKit "
+                   "halves of the other theorems and paths_agree are this composed with the premise rdk_agrees (the oracle equals the specification), which the harness evaluates per molecule "
+                   "and which is FALSE exactly where the RDKit path deviates (ring cis/trans centres, Kekule rings, explicit [H], marks on non-stereocentres).  Path selection, explicit "
+                   "charge/multiplicity and the composition constructor -> path result as a decision table over an oracle boolean `metal`.  PARTIAL: 3D embedding is an oracle (finite, "
+                   "pairwise distinct coordinates are observed only); the SMILES parser (C01) and RDKit are inputs; whether the annotation equals what the SMILES denotes is decided by "
+                   "the RDKit-referenced implementation oracles, not by the theorems."),
+    "level_note": ("Trusted: Coq kernel; tr/translate_c02.py; the hand model of make_graph / networkx attribute semantics / hydrogen expansion / atoms setter (source text compared each run, "
+                   "32 further functions hash-pinned, behaviour validated by the correspondence on every generated molecule and path).  Definitional/tripwire theorems (audit): "
+                   "charge_and_multiplicity_builtin, rebuild_forgets_marks, translated_helpers_match_model, the built-in half of pi_flags_exact restate definitions and only fix statement order; "
+                   "path_selection_table takes `metal` as a free boolean (its relation to the string is exercised by check_trace only).  Not modelled: Builder.set_atoms_bonds raising on "
+                   "> 8 neighbours, atoms_from_rdkit_mol's mol-block parsing (finding atom-class-ge-100), coordinates."),
 }
